@@ -163,10 +163,19 @@ def check_literals(ctx: Ctx, prop_rule: str, env: EnvA, sl, root, lits, what: st
             exp = lit.expected_signs()
             # sign 0 = dependence through a function whose direction the analysis does not know: undecided, never reported
             wrong = {k: sorted(v) for k, v in pol.items() if k in exp and not ((v - {0}) <= exp[k])}
+            # a state quantity the reference inequality does not contain: it shifts the boundary of the constraint.  Entering on the
+            # admitting side it offers actions the constraint forbids (C01), on the other side it hides feasible ones (C05)
+            bad_sign = +1 if direction == "looser" else -1
+            foreign = {k: sorted(v) for k, v in pol.items() if k not in exp and bad_sign in v}
+            if foreign:
+                wrong.update({k: v for k, v in foreign.items()})
+                exp = dict(exp)
+                for k in foreign:
+                    exp[k] = set()
             pid = "C01.q" if direction == "looser" else "C05.d"
             ctx.ob(pid, inst + ":term-signs", not wrong, sl.where,
                    f"{show_leaf(leaf)}: " + ("every term enters with the reference sign" if not wrong else
-                                             "; ".join(f"`{k}` enters with sign(s) {v}, the constraint needs {sorted(exp[k])}" for k, v in wrong.items()) +
+                                             "; ".join((f"`{k}` enters with sign(s) {v}, the constraint needs {sorted(exp[k])}" if exp[k] else f"`{k}` is not part of the constraint but enters its inequality with sign(s) {v}") for k, v in wrong.items()) +
                                              " -- a term of the inequality was flipped / a flag is used with the wrong polarity, so the constraint admits infeasible or hides feasible actions"),
                    construct=f"{sl.fi.qualname}:{lit.name}:term-sign:" + ",".join(sorted(wrong)))
         if lit.kind == "cmp" and lit.strict is not None:
@@ -183,6 +192,58 @@ def check_literals(ctx: Ctx, prop_rule: str, env: EnvA, sl, root, lits, what: st
                    construct=f"{sl.fi.qualname}:{lit.name}:{direction}")
     if direction == "looser":
         connective_matrix(ctx, id_presence, env, sl, lits, m, what)
+
+
+# bounds stored with a documented margin: (env, cell) -> reason
+BOUND_MARGINS = {
+    ("OPEnv", "max_length"): "documented in OPEnv._reset: 1e-6 is subtracted `for numeric stability`; the checker adds it back (tables: length)",
+}
+
+
+def bound_state_exact(ctx: Ctx, rid: str, env: EnvA, lits, direction: str):
+    """The upper bounds a mask compares against (vehicle capacity, maximum length, distance limit ...) are state cells written by
+    `_reset`.  The reference constraint is stated with the instance's own bound: the value stored must be that bound, not the
+    bound shifted by a constant.  A negative shift turns `load exactly fills the vehicle` into a forbidden move (C05), a positive
+    one admits loads above the capacity (C01)."""
+    rs = env.slot("_reset")
+    if rs is None or rs.td is None:
+        return
+    seen = set()
+    for lit in lits:
+        if lit.kind != "cmp":
+            continue
+        for key in sorted(lit.big):
+            if key in seen:
+                continue
+            v = rs.td.cells.get(key)
+            if not isinstance(v, vg.S) or (v.op == "cell0" and v.args[1] == key):
+                continue
+            seen.add(key)
+            x = nf.strip(v)
+            while True:
+                if nf._fn(x) == "torch.full" and len(x.args) >= 3:
+                    x = nf.strip(x.args[2]); continue
+                if nf._fn(x) in ("torch.full_like",) and len(x.args) >= 3:
+                    x = nf.strip(x.args[2]); continue
+                if x.op == "meth" and x.args[1] in ("clone", "to", "float", "unsqueeze", "expand", "repeat", "view", "reshape", "contiguous"):
+                    x = nf.strip(x.args[0]); continue
+                break
+            if nf._fn(x) in ("torch.zeros", "torch.zeros_like", "torch.ones", "torch.ones_like"):
+                continue                        # an accumulator that starts empty, not a bound
+            try:
+                c = nf.poly(x).const_term()
+            except Exception:
+                continue
+            if len(nf.poly(x).terms) <= 1 and c != 0:
+                continue                        # the bound IS a constant (e.g. a normalised capacity of 1.0)
+            shifted = (c < 0) if direction == "tighter" else (c > 0)
+            why_exc = BOUND_MARGINS.get((env.name, key))
+            ok = not shifted or why_exc is not None
+            ctx.ob(rid, f"{env.name}._reset:{key}:bound-stored-exactly", ok, rs.where,
+                   f"{key} = {vg.show(x, 3)[:120]}: constant shift {float(c):g}" + (f" -- accepted: {why_exc}" if shifted and why_exc else "") +
+                   ("" if ok else (" -- the bound the mask compares with is smaller than the instance's: an action that meets the constraint with equality is not offered"
+                                   if direction == "tighter" else " -- the bound the mask compares with is larger than the instance's: infeasible actions are offered")),
+                   construct=f"{env.name}._reset:{key}:bound-shift")
 
 
 def connective_matrix(ctx: Ctx, rid: str, env: EnvA, sl, lits, m, what: str):
@@ -1052,6 +1113,7 @@ def run(ctx: Ctx):
         sl, root = mask_root(env, family)
         ctx.fn(sl.fi)
         check_literals(ctx, "C01", env, sl, root, T.MASK[cname], "mask", "looser")
+        bound_state_exact(ctx, "C01.y", env, T.MASK[cname], "looser")
         rule_c(ctx, env)
         rule_e(ctx, env)
         rule_f(ctx, env)
